@@ -437,6 +437,12 @@ def compare(ip, op, a, b):
             return r
         x, y = zint(a), zint(b)
         return {'Lt': x < y, 'LtE': x <= y, 'Gt': x > y, 'GtE': x >= y}[op]
+    ka, kb = ip._kind(a), ip._kind(b)
+    num = ('int', 'bool', 'float')
+    if (ka is not None or a is None or isinstance(a, (ZList, list, tuple, Opaque))) and \
+            (kb is not None or b is None or isinstance(b, (ZList, list, tuple, Opaque))) and \
+            not (ka in num and kb in num) and not (ka == kb and ka in ('bytes', 'str')):
+        raise_(TypeError, 'ordering not supported between these types')
     if isinstance(a, (float, SF, int)) and isinstance(b, (float, SF, int)) or \
             ((isinstance(a, (float, SF)) or isinstance(b, (float, SF))) and (isint(a) or isint(b) or True)):
         x, y = to_float(ip, a), to_float(ip, b)
@@ -707,6 +713,16 @@ def getitem(ip, o, k):
             raise PyRaise(type(ex), PyExcVal(type(ex), ex.args))
     if isinstance(o, HDict):
         return hdict_get(ip, o, k)
+    if isinstance(o, Opaque):
+        # item of an embedder object: unknown value (A-EMBED)
+        n_ = ip.ctx.count('opaque:item')
+        e_ = z3.Const(f'embed_item#{n_}', VAL)
+        ip.ctx.define(z3.Not(VAL.is_absent(e_)))
+        return SV(e_)
+    if o is None or isinstance(o, (bool, int, float, SF)) or is_sym_int(o) or is_sym_bool(o):
+        raise_(TypeError, 'object is not subscriptable')
+    if (is_bytes(o) or isinstance(o, (list, tuple, ZList, str, SStr, HByteArray))) and not isint(k):
+        raise_(TypeError, 'indices must be integers')
     if isinstance(o, dict):
         if is_concrete(k):
             if k in o:
@@ -913,6 +929,16 @@ def method_model(ip, o, name, args, kwargs):
             return None
         if name == 'copy':
             return ZList(o.elem, o.arr, o.ln, kind=o.kind)
+        if name == 'remove':
+            # abstraction: either the value is not in the list (ValueError) or one element goes away;
+            # which elements remain is not tracked
+            ip.heap_write_guard()
+            if not ip.ctx.branch(fresh('present', z3.BoolSort()), 'in list'):
+                raise_(ValueError, 'list.remove(x): x not in list')
+            ip.ctx.assume(zint(o.ln) >= 1)
+            o.arr = fresh('arr', o.arr.sort())
+            o.ln = z3.simplify(zint(o.ln) - 1)
+            return None
         raise Unsupported(f'list.{name} on symbolic list')
     if isinstance(o, HDict):
         if name == 'get':
@@ -986,8 +1012,6 @@ def method_model(ip, o, name, args, kwargs):
             return getattr(o, name)(*args)
         except Exception as ex:  # noqa: BLE001
             raise PyRaise(type(ex), PyExcVal(type(ex), ex.args))
-    if isinstance(o, (set, SymSet)) and name == 'add':
-        raise Unsupported('set.add: use SymSet via construct')
     if isinstance(o, SymSet):
         if name == 'add':
             ip.heap_write_guard()
@@ -1049,6 +1073,10 @@ def _join(ip, sep, parts):
 
 
 def symset_len(ip, s):
+    if getattr(s, 'unknown', False):
+        r = fresh('setlen', I)
+        ip.ctx.assume(r >= 0)
+        return r
     n = 0
     terms = []
     for i, x in enumerate(s.items):
